@@ -51,3 +51,18 @@ Definition mnemonic_from_entropy_bytes (e : bytes) : res str :=
 Definition mnemonic_from_entropy (hex : str) : res str :=
   do e <- fromhex hex; mnemonic_from_entropy_bytes e.
 End Bip39.
+
+(* bip39_seed_from_mnemonic: unicodedata.normalize, str.encode and hashlib.pbkdf2_hmac are external *)
+Section Seed.
+Variable nfkd : str -> str.                        (* unicodedata.normalize("NFKD", .) *)
+Variable utf8 : str -> bytes.                      (* str.encode("utf-8") *)
+Variable pbkdf2 : bytes -> bytes -> Z -> bytes.    (* hashlib.pbkdf2_hmac("sha512", pw, salt, rounds) -> 64 bytes *)
+
+Definition s_mnemonic : str := [109;110;101;109;111;110;105;99].      (* "mnemonic" *)
+
+Definition bip39_seed_from_mnemonic (mnemonic password : str) : bytes :=
+  let mnemonic := nfkd mnemonic in
+  let password := nfkd password in
+  let passphrase := nfkd s_mnemonic ++ password in
+  pbkdf2 (utf8 mnemonic) (utf8 passphrase) PBKDF2_ROUNDS.
+End Seed.
